@@ -364,9 +364,13 @@ func checkProperty(dir string, P *Program, C *Contracts, id, tier string, verbos
 		},
 		"assumptions": append(append([]string{}, assumed...), spec.Undecided...),
 	}
-	os.MkdirAll(filepath.Join(dir, "evidence"), 0o755)
+	evDir := filepath.Join(dir, "evidence")
+	if os.Getenv("VERIF_NOEVIDENCE") != "" {
+		evDir = filepath.Join(dir, "out", "selftest-evidence")
+	}
+	os.MkdirAll(evDir, 0o755)
 	eb, _ := json.MarshalIndent(ev, "", " ")
-	os.WriteFile(filepath.Join(dir, "evidence", id+".json"), eb, 0o644)
+	os.WriteFile(filepath.Join(evDir, id+".json"), eb, 0o644)
 
 	fmt.Printf("%s: %d obligations, %d discharged, %d known findings, %d violations, %.1fs (functions: %d)\n", id, len(all), nDischarged, len(knownHit), len(violations), time.Since(t0).Seconds(), len(fuc))
 	if verbose {
@@ -409,6 +413,9 @@ func trimModel(s string) string {
 
 func writeReplay(dir, id, name string, payload map[string]any) string {
 	p := filepath.Join(dir, "replay", id)
+	if os.Getenv("VERIF_NOEVIDENCE") != "" {
+		p = filepath.Join(dir, "out", "selftest-replay", id)
+	}
 	os.MkdirAll(p, 0o755)
 	f := filepath.Join(p, name+".json")
 	b, _ := json.MarshalIndent(payload, "", " ")
